@@ -382,14 +382,25 @@ def run_harness(exe, domain, hf, hists, shard=0):
     out = []
     d = common.run_dir()
     one = os.path.join(d, "one%d.txt" % shard)
+    failures = 0
+    env = dict(os.environ, SV_WATCHDOG_SECS="45")
     for h in hists:
+        if failures >= 4:
+            # enough of them to report and to shrink from; the rest of this shard is not worth a watchdog period each
+            out.append("99")
+            continue
         with open(one, "w") as f:
             f.write(wg.encode(h) + "\n")
-        q = subprocess.run([exe, domain, one], stdout=subprocess.PIPE, text=True, timeout=600)
-        if q.returncode == 0 and q.stdout.strip():
+        try:
+            q = subprocess.run([exe, domain, one], stdout=subprocess.PIPE, text=True, timeout=600, env=env)
+            ok = q.returncode == 0 and q.stdout.strip()
+        except subprocess.TimeoutExpired:
+            ok = False
+        if ok:
             out.append(q.stdout.strip().split("\n")[0])
         else:
-            out.append("99")      # crash marker: undecodable, so `complete` is false
+            failures += 1
+            out.append("99")      # crash / hang marker: undecodable, so `complete` is false
     return out
 
 
